@@ -72,6 +72,7 @@ func msgShowEvent(e sse.Event) string {
 func runEnc(args []string) string {
 	var all []byte
 	agree := true
+	var kept, want [][]byte
 	for _, s := range args {
 		m := buildMsg(s)
 		var buf bytes.Buffer
@@ -82,6 +83,13 @@ func runEnc(args []string) string {
 			agree = false
 		}
 		all = append(all, buf.Bytes()...)
+		kept, want = append(kept, mt), append(want, buf.Bytes())
+	}
+	// the bytes MarshalText returned belong to the caller: encoding other messages afterwards leaves them alone
+	for i := range kept {
+		if !bytes.Equal(kept[i], want[i]) {
+			agree = false
+		}
 	}
 	var events []string
 	errOut := "nil"
@@ -253,7 +261,16 @@ func runGWT(args []string) string {
 	if err != nil {
 		mt = "ERR(" + err.Error() + ")"
 	}
-	return fmt.Sprintf("%s | %s | %s", wt, mt, hx([]byte(m.String())))
+	// the bytes returned belong to the caller: encoding another message afterwards leaves them alone
+	other := &sse.Message{ID: sse.ID("other"), Type: sse.Type("other"), Retry: 7 * time.Second}
+	other.AppendData(strings.Repeat("other message\n", 1+len(args[0])%5))
+	_, _ = other.MarshalText()
+	str := hx([]byte(m.String()))
+	_ = other.String()
+	if err == nil && hx(b) != mt {
+		mt = "OVERWRITTEN(" + hx(b) + ")"
+	}
+	return fmt.Sprintf("%s | %s | %s", wt, mt, str)
 }
 
 // GUT <hex>: UT for the translated UnmarshalText, which does not keep which strconv error it wrapped
